@@ -52,6 +52,7 @@ type c15Op struct {
 	Md  string  `json:"md,omitempty"`  // brk: stall close cancel error
 	N   int     `json:"n,omitempty"`   // sub/reload: failing Gets first
 	Mid []c15Ev `json:"mid,omitempty"` // sub/reload: events on prefix P between the snapshot and the watch
+	Sch []int   `json:"sch,omitempty"` // brk: which replaying watcher receives its next response (then first-come)
 }
 
 type c15Case struct {
@@ -86,7 +87,6 @@ type c15Sub struct {
 }
 
 type c15LogEv struct {
-	rev  int64
 	p    int
 	del  bool
 	key  string
@@ -200,14 +200,10 @@ func (m *c15Model) toggle(p int, e c15Ev, lost bool) c15LogEv {
 		}
 		m.store[p][key], m.lastVal[p][key] = val, val
 	}
-	m.rev++
-	le := c15LogEv{m.rev, p, del, key, val, lost}
-	m.log = append(m.log, le)
 	if lost {
-		m.lastLost = m.rev
 		m.lostSinceLoad[p] = true
 	}
-	return le
+	return c15LogEv{p, del, key, val, lost}
 }
 
 // seen: bookkeeping for an event that reaches the watchers of prefix p.
@@ -272,31 +268,6 @@ func (m *c15Model) loadShadow(p int) {
 	m.okBase[p] = snap
 }
 
-// replay: watchers of prefix p re-open their watch from their start revision.
-func (m *c15Model) replay(p int) {
-	if len(m.watchers[p]) == 0 {
-		return
-	}
-	min := int64(-1)
-	for _, r := range m.watchers[p] {
-		if r != 0 && (min < 0 || r < min) {
-			min = r
-		}
-	}
-	if min < 0 {
-		return // started at revision 0: watch without a start revision
-	}
-	from := min + 1
-	if m.lastLost+1 > from {
-		from = m.lastLost + 1
-	}
-	for _, e := range m.log {
-		if e.p == p && e.rev >= from && !e.lost {
-			m.seen(p, e.del, e.key, e.val, false)
-		}
-	}
-}
-
 func c15Set(vals []string) (string, bool) {
 	s := append([]string(nil), vals...)
 	sort.Strings(s)
@@ -313,7 +284,7 @@ func c15Interp(t *testing.T, c c15Case) (v kit.Verdict) {
 	var fail string
 	classes := map[string]bool{}
 	nontrivial := false
-	m := &c15Model{rev: int64(c.Rev0)}
+	m := &c15Model{}
 	for p := range m.store {
 		m.store[p], m.lastVal[p] = map[string]string{}, map[string]string{}
 	}
@@ -383,6 +354,29 @@ func c15Interp(t *testing.T, c c15Case) (v kit.Verdict) {
 			return true
 		}
 
+		// pump hands pending replays to the watchers one response at a time
+		// (order = sched, then first-come) and feeds the model in the same order.
+		pump := func(sched []int) {
+			for i := 0; fake.Pending() > 0; i++ {
+				pick := 0
+				if i < len(sched) {
+					pick = sched[i]
+				}
+				evs := fake.PumpStep(pick)
+				kit.Wait()
+				for _, e := range evs {
+					q := 0
+					if strings.HasPrefix(e.Key, c15Prefixes[1]+"/") {
+						q = 1
+					}
+					m.seen(q, e.Del, e.Key, e.Val, false)
+				}
+				if len(evs) > 0 {
+					classes["replayed-events"] = true
+				}
+			}
+		}
+
 		for i, o := range c.Ops {
 			what := fmt.Sprintf("op %d %+v", i, o)
 			if o.P < 0 || o.P > 1 {
@@ -445,10 +439,11 @@ func c15Interp(t *testing.T, c c15Case) (v kit.Verdict) {
 					continue
 				}
 				fake.Break(o.Md)
-				for q := range m.watchers {
-					m.replay(q)
+				kit.Wait() // every live watcher has re-opened its watch
+				if fake.Pending() >= 2 {
+					classes["replay-by-several-watchers"] = true
 				}
-				kit.Wait()
+				pump(o.Sch)
 				if !check(what, nil) {
 					return
 				}
@@ -478,7 +473,6 @@ func c15Interp(t *testing.T, c c15Case) (v kit.Verdict) {
 				// model: snapshot, then the mid events
 				stale := m.lostSinceLoad[p]
 				m.loadShadow(p)
-				startRev := m.rev
 				if s.x {
 					for _, val := range m.values(p) {
 						// the joiner is fed the cluster's snapshot in map order: with several holders any of
@@ -492,6 +486,10 @@ func c15Interp(t *testing.T, c c15Case) (v kit.Verdict) {
 				}
 				var mids []c15LogEv
 				for _, e := range o.Mid {
+					// the joiner's snapshot diff races with the running watchers of the prefix; with a
+					// re-valued key the outcome would depend on the scheduler, so a re-registered key
+					// keeps its value here
+					e.NV = false
 					mids = append(mids, m.toggle(p, e, false))
 				}
 				if len(mids) > 0 {
@@ -514,7 +512,6 @@ func c15Interp(t *testing.T, c c15Case) (v kit.Verdict) {
 				s.s = sub
 				sub.AddListener(func() { s.notif.Add(1) })
 				m.subs = append(m.subs, s)
-				m.watchers[p] = append(m.watchers[p], startRev)
 				if len(mids) == 0 {
 					// "immediately sees the current set": no wait
 					s.lastView, _ = c15Set(sub.Values())
@@ -530,6 +527,7 @@ func c15Interp(t *testing.T, c c15Case) (v kit.Verdict) {
 					m.seen(p, e.del, e.key, e.val, true)
 				}
 				kit.Wait()
+				pump(nil) // the joiner's own watch replays the events after its snapshot
 				if !check(what, nil) {
 					return
 				}
@@ -548,7 +546,6 @@ func c15Interp(t *testing.T, c c15Case) (v kit.Verdict) {
 						m.loadShadow(q)
 					}
 				}
-				startRev := m.rev
 				for _, s := range m.subs {
 					if s.dirty && s.x {
 						for val := range s.touched {
@@ -571,15 +568,6 @@ func c15Interp(t *testing.T, c c15Case) (v kit.Verdict) {
 						}
 					})
 				}
-				for q := range m.watchers {
-					m.watchers[q] = nil
-					if hasSub(m, q) {
-						m.watchers[q] = []int64{startRev}
-					}
-				}
-				for _, e := range mids {
-					m.seen(p, e.del, e.key, e.val, false)
-				}
 				reloads++
 				if !internal.C15Reload([]string{eps}, fake) {
 					fail = what + ": harness: no cluster to reload"
@@ -587,6 +575,7 @@ func c15Interp(t *testing.T, c c15Case) (v kit.Verdict) {
 				}
 				time.Sleep(time.Duration(o.N)*time.Second + 50*time.Millisecond)
 				kit.Wait()
+				pump(nil) // the new watchers replay the events after their snapshots
 				if !check(what, nil) {
 					return
 				}
@@ -719,6 +708,9 @@ func c15Gen(rt *rapid.T) c15Case {
 		case "brk":
 			o.Md = rapid.SampledFrom([]string{"stall", "stall", "close", "cancel", "error"}).Draw(rt, "mode")
 			outage = o.Md == "stall" || rapid.Bool().Draw(rt, "outage")
+			if o.Md != "stall" && rapid.Bool().Draw(rt, "hassched") {
+				o.Sch = rapid.SliceOfN(rapid.IntRange(0, 3), 1, 10).Draw(rt, "sched")
+			}
 		case "sub":
 			o.P = pickPrefix("subp")
 			o.X = rapid.IntRange(0, 9).Draw(rt, "excl") < 3
@@ -740,6 +732,6 @@ func c15Gen(rt *rapid.T) c15Case {
 }
 
 func TestVerif_C15_converge(t *testing.T) {
-	kit.Run(t, "C15", "converge", kit.Opts{Quick: 10000, Thorough: 640000}, c15Gen,
+	kit.Run(t, "C15", "converge", kit.Opts{Quick: 10000, Thorough: 400000}, c15Gen,
 		func(c c15Case) kit.Verdict { return c15Interp(t, c) })
 }
